@@ -9,6 +9,7 @@
         J = [[event…], [[[type, key, id]…]…], [[id…]…]]
         event = [id, room, sender, type, state_key|null, content, [prev…], [auth…], ts]
         → `ok <n> (s<type> s<key> s<id>)…` sorted by (type, key) | `err` | `panic` | `fuel`
+    `<p>.hyp <ver> <ord> J` → `wf|nowf` `+f4free|+f4`: do `RoomOk` / `F4Free` hold for the room
   `ord` selects the iteration orders the *model* uses for its hash containers (any value must give
   the same answer — C06); the spec side uses it to permute its inputs.
 -/
@@ -16,6 +17,7 @@ import RumaModel.Proto
 import RumaModel.Model.StateRes
 import RumaModel.Model.Auth
 import RumaModel.Spec.StateResV2
+import RumaModel.Lemmas.StateResHyp
 namespace Ruma.Driver.StateResIO
 open Ruma Ruma.Proto Ruma.StateRes
 
@@ -207,6 +209,13 @@ def handleOp (op : String) (args : List String) : String :=
     match ver.toNat?.bind AuthRules.ofVersion?, ord.toNat?, (parseOne rest).bind parseResolve with
     | some r, some k, some (evs, sets, chains) =>
       showState (resolve (mkParams r) (mkOrders k) evs sets chains)
+    | _, _, _ => "bad-op"
+  | "hyp", ver :: ord :: rest =>
+    -- the hypotheses of the C07 refinement theorems, by the proven-sound checkers of `Lemmas/StateResHyp`
+    match ver.toNat?.bind AuthRules.ofVersion?, ord.toNat?, (parseOne rest).bind parseResolve with
+    | some r, some _, some (evs, sets, chains) =>
+      (if (roomOkB evs sets chains).isSome then "wf" else "nowf") ++
+      (if f4FreeB (mkParams r) evs sets chains then "+f4free" else "+f4")
     | _, _, _ => "bad-op"
   | "resolvespec", args => specResolve false args
   | "resolvespec.f4", args => specResolve false args
